@@ -92,6 +92,29 @@ func main() {
 	var sites []site
 	var skipped []string
 	var yieldFiles []string // files that get R2 yields in a second, purely textual pass
+	// c11 mode: does the compiler start goroutines of its own? (the pinned tree does not). If so its
+	// packages also get R2 yields, R3 lock/Once/WaitGroup wrappers and R4 goroutine/channel operations,
+	// and the world runs every compile under the tape-driven scheduler.
+	concurrentCompile := false
+	if *mode == "c11" {
+		for _, p := range pkgs {
+			rel := strings.TrimPrefix(strings.TrimPrefix(p.PkgPath, modPath), "/")
+			if rel != "compile" && rel != "schema" {
+				continue
+			}
+			for i, f := range p.Syntax {
+				if strings.HasSuffix(p.CompiledGoFiles[i], "_test.go") {
+					continue
+				}
+				ast.Inspect(f, func(n ast.Node) bool {
+					if _, ok := n.(*ast.GoStmt); ok {
+						concurrentCompile = true
+					}
+					return !concurrentCompile
+				})
+			}
+		}
+	}
 	changed := map[string]*ast.File{}
 	fsets := map[string]*token.FileSet{}
 	for _, p := range pkgs {
@@ -112,6 +135,15 @@ func main() {
 				n, sk := rewriteMapRanges(p, f, relf, &sites, *mode == "scan")
 				touched = n > 0
 				skipped = append(skipped, sk...)
+				if concurrentCompile && (rel == "compile" || rel == "schema") {
+					n2, sk2 := rewriteConcurrency(p, f, relf, &sites)
+					for _, x := range sk2 {
+						concSkipped = append(concSkipped, x)
+					}
+					n2 += rewriteLocks(p, f, relf, &sites)
+					touched = touched || n2 > 0
+					yieldFiles = append(yieldFiles, name)
+				}
 			case "c07":
 				if rel == "parse" {
 					n, sk := rewriteConcurrency(p, f, relf, &sites)
@@ -166,6 +198,10 @@ func main() {
 		if err := writeRuntime(filepath.Join(*repo, "zz_verifsimrt")); err != nil {
 			fatal(err)
 		}
+		flags := fmt.Sprintf("package simrt\n\n// ConcurrentCompile: the compiler of the tree under test starts goroutines of its own and simrewrite gave all of its concurrency constructs a seam.\nconst ConcurrentCompile = %v\n", concurrentCompile && len(concSkipped) == 0)
+		if err := os.WriteFile(filepath.Join(*repo, "zz_verifsimrt", "flags.go"), []byte(flags), 0o644); err != nil {
+			fatal(err)
+		}
 	}
 	count := map[string]int{}
 	for _, s := range sites {
@@ -182,6 +218,13 @@ func main() {
 	}
 	for _, s := range skipped {
 		fmt.Printf("UNREWRITTEN %s\n", s)
+	}
+	if concurrentCompile {
+		if len(concSkipped) == 0 {
+			fmt.Println("CONCURRENT compile simulated")
+		} else {
+			fmt.Printf("CONCURRENT compile unsimulated %s\n", strings.Join(concSkipped, "; "))
+		}
 	}
 	// a construct every occurrence of which was given a seam by R4 is not "unsimulated" in this mode
 	var left []string
@@ -221,6 +264,7 @@ func main() {
 // simulator has no seam for in the given package (the worlds compare the list
 // with a committed baseline and say so when the tree under test has new ones).
 var unsim []string
+var concSkipped []string // concurrency constructs in compile/schema that R4 could not rewrite (c11 mode)
 var unsimPos = map[string][]string{} // entry -> source positions of its occurrences
 var handledPos = map[string]bool{}   // positions of select statements R4 rewrote
 
@@ -438,6 +482,27 @@ func rewriteLocks(p *packages.Package, f *ast.File, relf string, sites *[]site) 
 				}
 			}
 			return true
+		}
+		if wh := map[string]string{"Add": "WGAdd", "Done": "WGDone", "Wait": "WGWait", "Go": "WGGo"}[sel.Sel.Name]; wh != "" {
+			if selection := p.TypesInfo.Selections[sel]; selection != nil {
+				if fn, ok := selection.Obj().(*types.Func); ok && fn.Pkg() != nil && fn.Pkg().Path() == "sync" {
+					if recv := fn.Type().(*types.Signature).Recv(); recv != nil && strings.HasSuffix(recv.Type().String(), "sync.WaitGroup") {
+						if tv, ok := p.TypesInfo.Types[sel.X]; ok && strings.HasSuffix(strings.TrimPrefix(tv.Type.String(), "*"), "sync.WaitGroup") {
+							id := pos(p, relf, call)
+							*sites = append(*sites, site{ID: id, Rule: "R3", Pkg: pkgRel(p)})
+							n++
+							var arg ast.Expr = sel.X
+							if _, isPtr := tv.Type.Underlying().(*types.Pointer); !isPtr {
+								arg = &ast.UnaryExpr{Op: token.AND, X: sel.X}
+							}
+							rest := call.Args
+							call.Fun = &ast.SelectorExpr{X: ast.NewIdent("verifsimrt"), Sel: ast.NewIdent(wh)}
+							call.Args = append([]ast.Expr{&ast.BasicLit{Kind: token.STRING, Value: fmt.Sprintf("%q", id)}, arg}, rest...)
+							return true
+						}
+					}
+				}
+			}
 		}
 		if len(call.Args) != 0 {
 			return true
@@ -1052,6 +1117,72 @@ func onceSet(o *sync.Once, running, done bool) {
 	s := onceFind(o)
 	s.running, s.done = running, done
 }
+
+// WaitGroup wrappers: the real WaitGroup is kept in step (it gives the
+// happens-before edges), a shadow counter lets Wait park in the scheduler.
+type wgState struct {
+	wg *sync.WaitGroup
+	n  int
+}
+
+var wgStates []*wgState
+
+//go:norace
+func wgAdd(wg *sync.WaitGroup, d int) int {
+	for _, s := range wgStates {
+		if s.wg == wg {
+			s.n += d
+			return s.n
+		}
+	}
+	wgStates = append(wgStates, &wgState{wg, d})
+	return d
+}
+
+func WGAdd(site string, wg *sync.WaitGroup, d int) {
+	if Sim == nil {
+		wg.Add(d)
+		return
+	}
+	wgAdd(wg, d)
+	wg.Add(d)
+	Sim.Event(site)
+}
+
+func WGDone(site string, wg *sync.WaitGroup) {
+	if Sim == nil {
+		wg.Done()
+		return
+	}
+	wgAdd(wg, -1)
+	wg.Done()
+	Sim.Event(site)
+}
+
+func WGWait(site string, wg *sync.WaitGroup) {
+	if Sim == nil {
+		wg.Wait()
+		return
+	}
+	Sim.Event(site)
+	for wgAdd(wg, 0) > 0 {
+		Sim.Blocked(site)
+	}
+	wg.Wait()
+}
+
+func WGGo(site string, wg *sync.WaitGroup, f func()) {
+	WGAdd(site, wg, 1)
+	Go(site, func() {
+		defer WGDone(site, wg)
+		f()
+	})
+}
+
+// ResetSync forgets the shadow state of Once and WaitGroup objects (between cases).
+//
+//go:norace
+func ResetSync() { wgStates = nil }
 
 // ---- R4: goroutines and channels ----------------------------------------------
 //
